@@ -57,8 +57,8 @@ Theorem C14_proxy_transparent :
   forall h h' p t, force_resolve h p = Ok (t, h') ->
     force_resolve h' p = Ok (t, h') /\
     py_hash h' (VProxy p) = py_hash h' (VObj t) /\
-    (forall o, py_eq h' (VProxy p) (VObj o) = Ok (t =? o, h')) /\
-    (forall o, py_eq h' (VObj o) (VProxy p) = Ok (t =? o, h')) /\
+    (forall o, py_eq h' (VProxy p) (VObj o) = (Ok (t =? o), h')) /\
+    (forall o, py_eq h' (VObj o) (VProxy p) = (Ok (t =? o), h')) /\
     py_getattr h' (VProxy p) = py_getattr h' (VObj t) /\
     (forall z, py_setattr h' (VProxy p) z = py_setattr h' (VObj t) z) /\
     (forall z h2, py_setattr h' (VProxy p) z = Ok h2 ->
@@ -80,43 +80,48 @@ Print Assumptions C14_proxy_transparent.
 (* `==` resolves by itself *)
 Theorem C14_eq_resolves :
   forall h h' p t, force_resolve h p = Ok (t, h') ->
-    forall o, py_eq h (VProxy p) (VObj o) = Ok (t =? o, h') /\ py_eq h (VObj o) (VProxy p) = Ok (t =? o, h').
+    forall o, py_eq h (VProxy p) (VObj o) = (Ok (t =? o), h') /\ py_eq h (VObj o) (VProxy p) = (Ok (t =? o), h').
 Proof. exact eq_resolves. Qed.
 Print Assumptions C14_eq_resolves.
 
-(* membership through a proxy entry: exactly when the remembered hash is the target's *)
+(* membership of the target through a proxy entry: exactly when the remembered hash is the target's.
+   (For the proxy OBJECT ITSELF as probe CPython may also succeed by accident: it checks identity on whatever
+   slot the probe reaches before comparing stored hashes; the model's "not found" is then "found only if the
+   addresses happen to collide" — not claimed here, not compared by the correspondence.) *)
 Theorem C14_member_iff :
   forall h p t hs, state_of h p = Resolved t ->
-    ps_contains h (VObj t) (singleton hs (VProxy p)) = Ok (hs =? t, h) /\
-    ps_contains h (VProxy p) (singleton hs (VProxy p)) = Ok (hs =? t, h).
-Proof. exact member_iff. Qed.
+    ps_contains h (VObj t) (singleton hs (VProxy p)) = (Ok (hs =? t), h).
+Proof. intros h p t hs H. exact (proj1 (member_iff h p t hs H)). Qed.
 Print Assumptions C14_member_iff.
 
 (* partial: holds for a proxy that was resolved BEFORE it entered the collection *)
 Theorem C14_member_partial :
   forall h p t h1 s1, state_of h p = Resolved t ->
-    ps_add h (VProxy p) pset_empty = Ok (s1, h1) ->
-    h1 = h /\ ps_contains h (VObj t) s1 = Ok (true, h) /\ ps_index h (VObj t) s1 = Ok (0, h).
+    ps_add h (VProxy p) pset_empty = (Ok s1, h1) ->
+    h1 = h /\ ps_contains h (VObj t) s1 = (Ok true, h) /\ ps_index h (VObj t) s1 = (Ok 0, h).
 Proof. exact member_resolved_first. Qed.
 Print Assumptions C14_member_partial.
 
-(* refuted in general: inserted unresolved (what the loaders do), resolved later => the target, and the
-   proxy itself, are reported absent although iteration finds an element equal to the target *)
+(* refuted in general: inserted unresolved (what the loaders do), resolved later => the target is
+   reported absent although iteration finds an element equal to the target *)
 Theorem C14_member_refuted_general :
   forall h p path t h1 s1 h2, state_of h p = Unresolved path -> p <> t ->
-    ps_add h (VProxy p) pset_empty = Ok (s1, h1) ->
+    ps_add h (VProxy p) pset_empty = (Ok s1, h1) ->
     force_resolve h1 p = Ok (t, h2) ->
-    ps_contains h2 (VObj t) s1 = Ok (false, h2) /\
-    ps_contains h2 (VProxy p) s1 = Ok (false, h2) /\
-    ps_index h2 (VObj t) s1 = Err KeyErr /\
-    any_eq h2 (VObj t) (p_items s1) = Ok (true, h2).
-Proof. exact member_unresolved_first. Qed.
+    ps_contains h2 (VObj t) s1 = (Ok false, h2) /\
+    ps_index h2 (VObj t) s1 = (Err KeyErr, h2) /\
+    any_eq h2 (VObj t) (p_items s1) = (Ok true, h2).
+Proof.
+  intros h p path t h1 s1 h2 H1 H2 H3 H4.
+  exact (conj (proj1 (member_unresolved_first h p path t h1 s1 h2 H1 H2 H3 H4))
+              (proj2 (proj2 (member_unresolved_first h p path t h1 s1 h2 H1 H2 H3 H4)))).
+Qed.
 Print Assumptions C14_member_refuted_general.
 
 (* whatever the collection holds: no remembered hash equal to the target's => absent *)
 Theorem C14_member_lost :
   forall h s t, (forall e, In e (p_map s) -> e_hash e <> t) ->
-    ps_contains h (VObj t) s = Ok (false, h) /\ ps_index h (VObj t) s = Err KeyErr.
+    ps_contains h (VObj t) s = (Ok false, h) /\ ps_index h (VObj t) s = (Err KeyErr, h).
 Proof. exact member_lost. Qed.
 Print Assumptions C14_member_lost.
 
@@ -125,12 +130,12 @@ Print Assumptions C14_member_lost.
 Example C14_member_refuted :
   let h0 := {| pstates := [(1001, Unresolved 5)]; world := [(5, 7)]; attrs := [(7, 107)] |} in
   exists s1 h2,
-    ps_add h0 (VProxy 1001) pset_empty = Ok (s1, h0) /\
+    ps_add h0 (VProxy 1001) pset_empty = (Ok s1, h0) /\
     force_resolve h0 1001 = Ok (7, h2) /\
-    py_eq h2 (VProxy 1001) (VObj 7) = Ok (true, h2) /\
+    py_eq h2 (VProxy 1001) (VObj 7) = (Ok true, h2) /\
     py_hash h2 (VProxy 1001) = py_hash h2 (VObj 7) /\
-    ps_contains h2 (VObj 7) s1 = Ok (false, h2) /\
-    ps_index h2 (VObj 7) s1 = Err KeyErr.
+    ps_contains h2 (VObj 7) s1 = (Ok false, h2) /\
+    ps_index h2 (VObj 7) s1 = (Err KeyErr, h2).
 Proof. vm_compute. eexists. eexists. repeat split; reflexivity. Qed.
 
 (* non-vacuity of the path theorem: /w/a/b/one.xmi and /w/c/two.xmi give ../../c/two.xmi *)
